@@ -801,7 +801,26 @@ FIXTURES = {
 }
 FIXTURES['cal'] = dict(T=5, F=6, cal=True, chunks={'correlator_data': (2, 4, 12), 'flags': (3, 3, 12), 'weights': (5, 2, 12)},
                        select=dict(dumps=[0, 5], channels=[0, 6]))
-INDICES = {'all': np.s_[:], 'fancy': np.s_[::2, [0, 3, 4], 1:], 'dump': np.s_[2]}
+# one chunk for everything / a single dump and channel and antenna / flags improved by a separate flag stream
+FIXTURES['tiny'] = dict(T=1, F=1, ants=['m000'], chunks={}, select=dict(dumps=[0, 1], channels=[0, 1]))
+FIXTURES['l1'] = dict(T=5, F=6, l1=True, chunks={'correlator_data': (2, 4, 4), 'flags': (3, 3, 4), 'weights': (5, 2, 2)},
+                      select=dict(dumps=[0, 5], channels=[0, 6]))
+INDICES = {'all': np.s_[:], 'fancy': np.s_[::2, [0, 3, 4], 1:], 'dump': np.s_[2],
+           # more load shapes (functions of the selected shape): boolean masks, scalars only, nothing at all, negative /
+           # strided, ellipsis, an index list on the time axis
+           'mask': lambda sh: np.s_[:, np.arange(sh[1]) % 2 == 0, sh[2] - 1],
+           'maskT': lambda sh: np.s_[np.arange(sh[0]) % 2 == (sh[0] + 1) % 2],
+           'single': lambda sh: np.s_[sh[0] - 1, sh[1] // 2, 0],
+           'empty': np.s_[0:0],
+           'neg': np.s_[-1, ::3],
+           'ell': np.s_[..., 0],
+           'list_t': lambda sh: np.s_[sorted({0, sh[0] // 2, sh[0] - 1})]}
+EXTRA_INDICES = ('mask', 'maskT', 'single', 'empty', 'neg', 'ell', 'list_t')
+
+
+def index_of(iname, d):
+    idx = INDICES[iname]
+    return idx(tuple(int(n) for n in d.shape)) if callable(idx) else idx
 
 
 def digest(a):
@@ -861,13 +880,23 @@ def _build_fixture(name, seed):
                    products=products)
         p.update(bandwidth=F * chan_w, center_freq=1284e6, telstate_hook=c13cal.cal_hook(cal),
                  archived_override=['sdp_l0', 'cal'], open_kwargs=dict(applycal=['l1.G', 'l1.B', 'l1.K']))
+    if p.pop('l1', False):
+        nb = 4 * len(p.get('ants', ('m000', 'm001'))) * (len(p.get('ants', ('m000', 'm001'))) + 1) // 2
+        rs = np.random.RandomState(seed)
+        p.update(l1_flags=rs.randint(0, 256, (p['T'], p['F'], nb)).astype(np.uint8), l1_chunks=(2, 3, nb))
     x = v4.build_v4(seed=seed, lose=lose, **p)
     x.d.select(dumps=slice(*sel['dumps']), channels=slice(*sel['channels']))
     return x
 
 
 def do_load(d, idx, joint):
-    """One load: the three arrays one by one, or jointly (twice the same array included: DaskLazyIndexer.get copies)."""
+    """One load: the three arrays one by one, jointly (twice the same array included: DaskLazyIndexer.get copies), or
+    (joint == 2) jointly into arrays the caller provides (`out=`), pre-filled with garbage."""
+    if joint == 2:
+        kept = [dask_getitem(a.dataset, idx) for a in (d.vis, d.weights, d.flags)]
+        out = [np.full(a.shape, 77, a.dtype) for a in kept]
+        res = DaskLazyIndexer.get([d.vis, d.weights, d.flags], idx, out=out)
+        return [np.asarray(a) for a in res] + [np.asarray(out[0])]
     if joint:
         out = DaskLazyIndexer.get([d.vis, d.weights, d.flags, d.vis], idx)
         return [np.asarray(a) for a in out]
@@ -886,9 +915,9 @@ _replayed = [0]
 def load_case(ctx, x, fixture, iname, joint, desc, ref, ref_reads, rl, seed):
     """Run one load of data set x.d under the scheduler `desc` and compare with the synchronous reference."""
     d = x.d
-    idx = INDICES[iname]
+    idx = index_of(iname, d)
     case = dict(kind='load', fixture=fixture, seed=seed, index=iname, joint=joint, sched=desc)
-    names = ('vis', 'weights', 'flags', 'vis_again')
+    names = ('vis', 'weights', 'flags', 'vis_again') if joint != 2 else ('vis', 'weights', 'flags', 'vis_out_param')
     ms = scheduler_of(desc)
     rec = Recorder()
     try:
@@ -970,8 +999,11 @@ def store_writes_case(ctx, x, fixture, iname):
     pairwise distinct, so that the theorem applies; the model confirms order independence on a random permutation."""
     d = x.d
     try:
-        kept = guarded(lambda: [dask_getitem(a.dataset, INDICES[iname]) for a in (d.vis, d.weights, d.flags)], 30)
+        kept = guarded(lambda: [dask_getitem(a.dataset, index_of(iname, d)) for a in (d.vis, d.weights, d.flags)], 30)
     except Hang:
+        return
+    except (IndexError, ValueError):
+        ctx.count('store_writes_index_rejected')        # (the index does not fit this data set, e.g. dump 2 of a 1-dump set)
         return
     writes = []
     offset = 0
@@ -1032,22 +1064,34 @@ def threaded_vs_sync(ctx):
             continue
         rl = ReadLog(x.store)
         try:
-            combos = [('all', False), ('all', True), ('fancy', True)] if ctx.tier != 'thorough' else \
-                [(i, j) for i in INDICES for j in (False, True)]
+            if ctx.tier == 'thorough':
+                combos = [(i, j) for i in INDICES for j in (False, True, 2)]
+            elif fixture in ('tiny', 'l1'):
+                combos = [('all', True), (rng.choice(EXTRA_INDICES), rng.choice((False, 2)))]
+            else:
+                # the three standing shapes + one more per fixture, drawn from the pool of extra shapes, into `out=` or not
+                combos = [('all', False), ('all', True), ('fancy', True), (rng.choice(EXTRA_INDICES), rng.choice((False, True, 2)))]
             for iname, joint in combos:
                 try:
                     with dask.config.set(scheduler='synchronous'):
-                        ref = guarded(lambda: do_load(x.d, INDICES[iname], joint))
+                        ref = guarded(lambda: do_load(x.d, index_of(iname, x.d), joint))
                 except Hang as e:
                     ctx.disagree('what=single_thread_load;symptom=hangs',
                                  dict(kind='load', fixture=fixture, seed=seed, index=iname, joint=joint,
                                       sched=dict(type='threads', workers=1)), str(e), None,
                                  'the single-threaded load of a v4 data set does not return')
                     return
+                except Exception as e:   # noqa
+                    # the single-threaded load itself rejects this shape: nothing to compare (not this property's business)
+                    ctx.count('load_reference_raises:%s:%s' % (iname, type(e).__name__))
+                    rl.take()
+                    continue
                 ref_reads = rl.take()
                 descs = schedulers_for(ctx, rng)
-                if ctx.tier != 'thorough' and not (iname == 'all' and joint):
+                if ctx.tier != 'thorough' and not (iname == 'all' and joint is True and fixture not in ('tiny', 'l1')):
                     descs = [q for q in descs if q['type'] == 'model'][::2] + descs[1:4:2]
+                ctx.count('load_index=%s' % iname)
+                ctx.count('load_joint=%s' % {False: 'separate', True: 'joint', 2: 'joint_out'}[joint])
                 for desc in descs:
                     load_case(ctx, x, fixture, iname, joint, desc, ref, ref_reads, rl, seed)
                 store_writes_case(ctx, x, fixture, iname)
@@ -1706,961 +1750,6 @@ def site_s3x(ctx, plan_name):
     return make
 
 
-LOAD_FILES = ['katdal/lazy_indexer.py', 'katdal/chunkstore.py', 'katdal/chunkstore_npy.py', 'katdal/vis_flags_weights.py']
-_ld = {}
-
-
-def load_lines_env(seed):
-    if 'x' not in _ld:
-        x = guarded(lambda: v4.build_v4(T=6, F=8, seed=seed, need_weights_power_scale=True,
-                                        chunks={'correlator_data': (2, 4, 6), 'flags': (3, 8, 4), 'weights': (1, 2, 12)}), 150)
-        _ld['x'] = x
-        d = x.d
-        d.select(dumps=slice(1, 6), channels=slice(1, 7))
-        with dask.config.set(scheduler='synchronous'):
-            _ld['exp'] = guarded(lambda: [d.vis[0:2], d.flags[1:3], (d.flags[2:4], d.weights[3], d.vis[3])])
-    return _ld['x'], _ld['exp']
-
-
-def site_load_lines(seed):
-    """The vis / flags / weights indexers of a v4 data set (flags is an indexer over an indexer), freshly selected,
-    indexed from three threads: first accesses of shared indexers + the whole load path at line granularity."""
-    def make(s):
-        x, exp = load_lines_env(seed)
-        d = x.d
-        d.select(dumps=slice(1, 6), channels=slice(1, 7))
-        for nm in ('_vis', '_weights', '_raw_flags', '_flags', '_excision'):
-            ind = getattr(d, nm, None)
-            if isinstance(ind, DaskLazyIndexer):
-                ind._lock = ilock_like(s, ind._lock)
-        fs = [lambda: d.vis[0:2], lambda: d.flags[1:3], lambda: (d.flags[2:4], d.weights[3], d.vis[3])]
-
-        def same(a, b):
-            if isinstance(a, tuple):
-                return all(same(p, q) for p, q in zip(a, b))
-            return a.shape == b.shape and a.dtype == b.dtype and np.array_equal(a, b)
-
-        def check(results):
-            for tid in range(3):
-                if not same(results[tid][1], exp[tid]):
-                    return 'wrong_value; thread %d' % tid
-            return None
-        return fs, check
-    return make
-
-
-def run_load_lines(ctx):
-    try:
-        load_lines_env(ctx.seed)
-    except Hang as e:
-        ctx.disagree('what=single_thread_load;symptom=hangs', dict(site='load_lines', schedule=[]), str(e), None,
-                     'indexing vis/flags/weights of a v4 data set from ONE thread does not return')
-        return
-    with dask.config.set(scheduler='synchronous'):
-        run_site(ctx, 'load_lines', site_load_lines(ctx.seed), LOAD_FILES, n=ctx.scale(10, 120), length=1500, cap=ctx.scale(30, 600))
-
-
-def load_lines_cleanup():
-    if 'x' in _ld:
-        v4.cleanup(_ld.pop('x'))
-        _ld.clear()
-
-
-# ------------------------------------------------------------------------------------------------ loads
-
-FIXTURES = {
-    'even': dict(T=6, F=8, chunks={'correlator_data': (2, 4, 6), 'flags': (3, 8, 4), 'weights': (1, 2, 12)},
-                 select=dict(dumps=[1, 6], channels=[1, 7])),
-    'odd_scaled': dict(T=7, F=9, need_weights_power_scale=True,
-                       chunks={'correlator_data': (2, 4, 5), 'flags': (3, 5, 12), 'weights': (3, 4, 7),
-                               'weights_channel': (4, 3)},
-                       select=dict(dumps=[0, 7], channels=[0, 9])),
-    'lost': dict(T=5, F=6, need_weights_power_scale=True,
-                 chunks={'correlator_data': (2, 3, 6), 'flags': (5, 2, 12), 'weights': (2, 6, 4)},
-                 lose=[['sdp_l0', 'correlator_data', [1, 0, 1]], ['sdp_l0', 'weights', [0, 0, 2]],
-                       ['sdp_l0', 'flags', [0, 1, 0]]],
-                 select=dict(dumps=[0, 5], channels=[1, 6])),
-}
-FIXTURES['cal'] = dict(T=5, F=6, cal=True, chunks={'correlator_data': (2, 4, 12), 'flags': (3, 3, 12), 'weights': (5, 2, 12)},
-                       select=dict(dumps=[0, 5], channels=[0, 6]))
-INDICES = {'all': np.s_[:], 'fancy': np.s_[::2, [0, 3, 4], 1:], 'dump': np.s_[2]}
-
-
-def digest(a):
-    a = np.ascontiguousarray(a)
-    return hashlib.sha1(a.tobytes() + str((a.shape, a.dtype)).encode()).hexdigest()[:16]
-
-
-class ReadLog:
-    """Wraps store.get_chunk: which chunks were read, what they contained when handed out, and the arrays themselves
-    (to see afterwards whether some task wrote into what it was given)."""
-
-    def __init__(self, store):
-        self.store = store
-        self.inner = store.get_chunk
-        self.reads = []
-        store.get_chunk = self
-
-    def __call__(self, array_name, slices, dtype):
-        chunk = self.inner(array_name, slices, dtype)
-        key = (array_name, tuple((s.start, s.stop) for s in slices))
-        self.reads.append((key, digest(chunk), chunk))
-        return chunk
-
-    def take(self):
-        out, self.reads = self.reads, []
-        return out
-
-    def remove(self):
-        del self.store.get_chunk
-
-
-def build_fixture(name, seed):
-    """(under a hang guard: opening a data set with applycal instantiates virtual sensors, which a broken sensor-cache
-    lock turns into a self-deadlock of the calling thread)"""
-    return guarded(lambda: _build_fixture(name, seed), 150)
-
-
-def _build_fixture(name, seed):
-    p = dict(FIXTURES[name])
-    sel = p.pop('select')
-    lose = [(a, b, tuple(c)) for a, b, c in p.pop('lose', [])]
-    if p.pop('cal', False):
-        # a calibration stream with G (per dump), B (per channel) and K products: applycal transforms in the graph
-        from fixtures import c13cal
-        import math
-        r = random.Random(seed)
-        F, ants = p['F'], ['m000', 'm001']
-
-        def cval():
-            m, ph = r.uniform(0.5, 2.0), r.uniform(-math.pi, math.pi)
-            return [m * math.cos(ph), m * math.sin(ph)]
-        products = {'G': [[dd, [[cval() for _ in ants] for _ in range(2)]] for dd in (-1, 2)],
-                    'B': [[-1, [[[cval() for _ in ants] for _ in range(2)] for _ in range(F)]]],
-                    'K': [[0, [[r.uniform(-2e-9, 2e-9) for _ in ants] for _ in range(2)]]]}
-        chan_w = 1048576.0
-        cal = dict(antlist=ants, pol_ordering=['v', 'h'], center_freq=1284e6, bandwidth=F * chan_w, n_chans=F,
-                   products=products)
-        p.update(bandwidth=F * chan_w, center_freq=1284e6, telstate_hook=c13cal.cal_hook(cal),
-                 archived_override=['sdp_l0', 'cal'], open_kwargs=dict(applycal=['l1.G', 'l1.B', 'l1.K']))
-    x = v4.build_v4(seed=seed, lose=lose, **p)
-    x.d.select(dumps=slice(*sel['dumps']), channels=slice(*sel['channels']))
-    return x
-
-
-def do_load(d, idx, joint):
-    """One load: the three arrays one by one, or jointly (twice the same array included: DaskLazyIndexer.get copies)."""
-    if joint:
-        out = DaskLazyIndexer.get([d.vis, d.weights, d.flags, d.vis], idx)
-        return [np.asarray(a) for a in out]
-    return [np.asarray(d.vis[idx]), np.asarray(d.weights[idx]), np.asarray(d.flags[idx])]
-
-
-def scheduler_of(desc):
-    if desc['type'] == 'model':
-        return ModelScheduler(random.Random(desc['seed']), desc['workers'], desc['policy'], desc['late'])
-    return None
-
-
-_replayed = [0]
-
-
-def load_case(ctx, x, fixture, iname, joint, desc, ref, ref_reads, rl, seed):
-    """Run one load of data set x.d under the scheduler `desc` and compare with the synchronous reference."""
-    d = x.d
-    idx = INDICES[iname]
-    case = dict(kind='load', fixture=fixture, seed=seed, index=iname, joint=joint, sched=desc)
-    names = ('vis', 'weights', 'flags', 'vis_again')
-    ms = scheduler_of(desc)
-    rec = Recorder()
-    try:
-        if ms is not None:
-            with dask.config.set(scheduler=ms):
-                got = guarded(lambda: do_load(d, idx, joint))
-        else:
-            with dask.config.set(scheduler='threads', num_workers=desc['workers']), rec:
-                got = guarded(lambda: do_load(d, idx, joint))
-    except Exception as e:   # noqa
-        ctx.disagree('what=threaded_load;sched=%s;symptom=raises_%s' % (desc['type'], type(e).__name__), case,
-                     repr(e)[:200], None, 'a load under a multi-worker schedule raised; the single-threaded load does not')
-        rl.take()
-        return
-    reads = rl.take()
-    for nm, a, b in zip(names, ref, got):
-        if a.shape != b.shape or a.dtype != b.dtype or not np.array_equal(a, b, equal_nan=(a.dtype.kind in 'fc')):
-            where = np.argwhere(np.asarray(a != b))[:1].tolist() if a.shape == b.shape else 'shape'
-            ctx.disagree('what=threaded_load;sched=%s;array=%s' % (desc['type'], nm), dict(case, first_diff=where),
-                         'differs', None, 'multi-threaded dask load differs from the single-threaded load',
-                         spec='arrays identical to the synchronous load')
-    # chunk reads: the same chunks, each with the same content as in the single-threaded load (idempotent reads)
-    want = {}
-    for key, dg, _ in ref_reads:
-        want.setdefault(key, dg)
-    for key, dg, chunk in reads:
-        if key not in want:
-            ctx.disagree('what=chunk_reads;symptom=extra_chunk', dict(case, chunk=list(map(str, key))), key, None,
-                         'a multi-threaded load read a chunk the single-threaded load does not read')
-        elif want[key] != dg:
-            ctx.disagree('what=chunk_reads;symptom=content_differs', dict(case, chunk=list(map(str, key))), dg, want[key],
-                         'reading the same chunk again returned different content (reads are not idempotent)')
-        elif not isinstance(chunk, np.ndarray) or digest(chunk) != dg:
-            ctx.extra['chunks_written_into_after_read'] = ctx.extra.get('chunks_written_into_after_read', 0) + 1
-    if sorted(k for k, _, _ in reads) != sorted(k for k, _, _ in ref_reads):
-        ctx.disagree('what=chunk_reads;symptom=different_multiset', case, len(reads), len(ref_reads),
-                     'the multi-threaded load does not read each chunk as often as the single-threaded load')
-    # the schedule that was executed is a schedule of the theorem: replay it in the extracted model
-    mcases = []
-    if ms is not None:
-        for r in ms.runs:
-            mcases.append((r['graph'], r['events'], r['shadow']))
-    else:
-        for r in rec.runs:
-            g, ev, problems = rec.model_case(r)
-            if problems:
-                ctx.disagree('what=schedule_replay;symptom=unknown_dependency', case, problems[:3], None,
-                             'recorded dask run does not fit the task-graph model', kind='tie')
-            mcases.append((g, ev, None))
-    # (large graphs: every fourth run only -- the extracted machine indexes tasks by unary numbers)
-    _replayed[0] += 1
-    mcases = [m for m in mcases if len(m[0]) <= 300 or _replayed[0] % 4 == 0]
-    if ctx.model_ok and not ctx.searching and mcases:
-        outs = ctx.model([[203, [g, ev]] for g, ev, _ in mcases])
-        for (g, ev, shadow), o in zip(mcases, outs):
-            if o == [-999]:
-                continue
-            wf, enabled, alldone, agree, cache, seqv = o
-            if not (wf and enabled and alldone and agree):
-                ctx.disagree('what=schedule_replay;sched=%s;symptom=wf%d_enabled%d_done%d_agree%d'
-                             % (desc['type'], wf, enabled, alldone, agree), dict(case, tasks=len(g), events=len(ev)),
-                             [wf, enabled, alldone, agree], [1, 1, 1, 1],
-                             'the schedule the real scheduler executed is not a complete schedule of the model', kind='tie')
-            elif shadow is not None and [c[0] if c else None for c in cache] != shadow:
-                ctx.disagree('what=schedule_replay;symptom=shadow_values', dict(case, tasks=len(g)), shadow[:8],
-                             [c[0] if c else None for c in cache][:8],
-                             'dependency values captured by the real run differ from the model run', kind='tie')
-            ctx.traces_validated += 1
-    ctx.note_case(('load', fixture, iname, joint, desc['type'], desc.get('policy'), desc['workers'], desc.get('late'),
-                   tuple(map(tuple, ms.runs[-1]['events'][:80])) if ms is not None and ms.runs else None),
-                  nontrivial=desc['workers'] > 1,
-                  sample=dict(fixture=fixture, index=iname, joint=joint, sched=desc))
-    ctx.count('load:%s' % desc['type'])
-    ctx.count('load_fixture=%s' % fixture)
-
-
-def store_writes_case(ctx, x, fixture, iname):
-    """The cells DaskLazyIndexer.get's output stage writes (one region per chunk of each kept array, lock=False): they are
-    pairwise distinct, so that the theorem applies; the model confirms order independence on a random permutation."""
-    d = x.d
-    try:
-        kept = guarded(lambda: [dask_getitem(a.dataset, INDICES[iname]) for a in (d.vis, d.weights, d.flags)], 30)
-    except Hang:
-        return
-    writes = []
-    offset = 0
-    for arr in kept:
-        size = int(np.prod(arr.shape)) if arr.shape else 1
-        pos = np.arange(size).reshape(arr.shape) + offset
-        starts = [np.cumsum((0,) + c) for c in arr.chunks]
-        for ci, block in enumerate(np.ndindex(*[len(c) for c in arr.chunks])):
-            region = tuple(slice(int(st[b]), int(st[b + 1])) for st, b in zip(starts, block))
-            for p in pos[region].ravel().tolist():
-                writes.append([p, (ci * 7 + 1) % 251])
-        offset += size
-    positions = [w[0] for w in writes]
-    nodup = len(set(positions)) == len(positions)
-    covered = set(positions) == set(range(offset))
-    a = b = None
-    if len(writes) <= 450 and ctx.model_ok and not ctx.searching:
-        # small enough for the extracted model (positions are unary numbers there): it must agree with the direct count
-        perm = list(range(len(writes)))
-        ctx.rng.shuffle(perm)
-        out = ctx.model([[204, [writes, perm, offset]]])[0]
-        if out != [-999]:
-            m_nodup, a, b = out
-            if bool(m_nodup) != nodup:
-                ctx.disagree('what=store_writes;symptom=model_disagrees', dict(kind='store_writes', fixture=fixture, index=iname),
-                             nodup, m_nodup, 'distinctness of the written cells: model and direct count differ', kind='tie')
-    if not nodup or a != b or not covered:
-        ctx.disagree('what=store_writes;symptom=%s' % ('overlap' if not nodup else 'gap' if not covered else 'order_dependent'),
-                     dict(kind='store_writes', fixture=fixture, index=iname), [nodup, covered], [1, 1],
-                     'the chunk regions written by the unsynchronised output stage overlap or leave gaps')
-    ctx.note_case(('store_writes', fixture, iname), nontrivial=True)
-    ctx.count('store_writes')
-
-
-def schedulers_for(ctx, rng):
-    descs = [dict(type='threads', workers=w) for w in (1, 2, 3, 4, 8, 16)]
-    for policy in ('random', 'greedy', 'fifo', 'lifo', 'reverse'):
-        for late in (False, True):
-            descs.append(dict(type='model', policy=policy, late=late, workers=rng.choice((1, 2, 3, 5)),
-                              seed=rng.randrange(2 ** 30)))
-    for _ in range(ctx.scale(2, 30)):
-        descs.append(dict(type='model', policy='random', late=rng.random() < 0.5, workers=rng.randint(2, 6),
-                          seed=rng.randrange(2 ** 30)))
-    return descs
-
-
-def threaded_vs_sync(ctx):
-    rng = ctx.rng
-    for fixture in FIXTURES:
-        seed = rng.randrange(2 ** 20)
-        try:
-            x = build_fixture(fixture, seed)
-        except Hang as e:
-            ctx.disagree('what=single_thread_load;symptom=open_hangs',
-                         dict(kind='load', fixture=fixture, seed=seed, index='all', joint=False,
-                              sched=dict(type='threads', workers=1)), str(e), None,
-                         'opening and selecting a v4 data set from ONE thread does not return')
-            continue
-        rl = ReadLog(x.store)
-        try:
-            combos = [('all', False), ('all', True), ('fancy', True)] if ctx.tier != 'thorough' else \
-                [(i, j) for i in INDICES for j in (False, True)]
-            for iname, joint in combos:
-                try:
-                    with dask.config.set(scheduler='synchronous'):
-                        ref = guarded(lambda: do_load(x.d, INDICES[iname], joint))
-                except Hang as e:
-                    ctx.disagree('what=single_thread_load;symptom=hangs',
-                                 dict(kind='load', fixture=fixture, seed=seed, index=iname, joint=joint,
-                                      sched=dict(type='threads', workers=1)), str(e), None,
-                                 'the single-threaded load of a v4 data set does not return')
-                    return
-                ref_reads = rl.take()
-                descs = schedulers_for(ctx, rng)
-                if ctx.tier != 'thorough' and not (iname == 'all' and joint):
-                    descs = [q for q in descs if q['type'] == 'model'][::2] + descs[1:4:2]
-                for desc in descs:
-                    load_case(ctx, x, fixture, iname, joint, desc, ref, ref_reads, rl, seed)
-                store_writes_case(ctx, x, fixture, iname)
-            store_writes_case(ctx, x, fixture, 'dump')
-        finally:
-            rl.remove()
-            v4.cleanup(x)
-
-
-
-# ================================================================================================ extension
-# Models of the remaining shared sites (coq/Model/SharedSites.v): sensor cache as a memoised DAG (wire_205), the wildcard
-# property map (206), the verified-bucket set (207), the request-level pool (208/209) -- cross-checked against the
-# theorems on random inputs and tied to the real objects below.
-
-ZMOD = 1000003
-
-
-def zmix(fid, args):
-    a = (fid * 31 + 7) % ZMOD
-    for v in args:
-        a = (a * 131 + v + 1) % ZMOD
-    return a
-
-
-def random_dag(rng, n):
-    """[deps, fid] per node in topological order + 'is created by a virtual-sensor function' flags; shapes: chains,
-    diamonds, the same input fetched twice, raw sensors only, virtual sensors without inputs (Timestamps/mjd)"""
-    g, virt = [], []
-    shape = rng.choice(('mixed', 'mixed', 'chain', 'flat', 'diamond'))
-    for k in range(n):
-        if k == 0 or shape == 'flat' or (shape == 'mixed' and rng.random() < 0.35):
-            g.append([[], rng.randrange(1000)])
-            virt.append(rng.random() < 0.15)
-        elif shape == 'chain':
-            g.append([[k - 1], rng.randrange(1000)])
-            virt.append(True)
-        elif shape == 'diamond' and k >= 3:
-            g.append([[k - 1, k - 2, k - 1], rng.randrange(1000)])
-            virt.append(True)
-        else:
-            g.append([[rng.randrange(k) for _ in range(rng.randint(1, min(3, k)))], rng.randrange(1000)])
-            virt.append(True)
-    return g, virt
-
-
-def dag_values(g):
-    out = []
-    for deps, fid in g:
-        out.append(zmix(fid, [out[d] for d in deps]))
-    return out
-
-
-def memo_cross_check(ctx):
-    """Extracted stack machine on random template DAGs, wants (incl. names nothing creates) and schedules, with and
-    without the lock: values = single-thread values, KeyError exactly for unknown names, locked -> created once."""
-    if not ctx.model_ok or ctx.searching:
-        return
-    rng = ctx.rng
-    cases = []
-    for _ in range(ctx.scale(150, 2500)):
-        n = rng.randint(1, 8)
-        g, virt = random_dag(rng, n)
-        nt = rng.randint(1, 4)
-        wants = [rng.randrange(n + 1) for _ in range(nt)]
-        sched = [rng.randrange(nt) for _ in range(rng.choice((0, 3, 20, 60, 150, 300)))]
-        for locked in (1, 0):
-            cases.append((g, virt, wants, sched, locked))
-    outs = ctx.model([[205, [g, [int(v) for v in virt], wants, sched, locked]] for g, virt, wants, sched, locked in cases])
-    twice = 0
-    for (g, virt, wants, sched, locked), o in zip(cases, outs):
-        if o == [-999]:
-            continue
-        twice += memo_eval(ctx, g, virt, wants, sched, locked, o)
-        ctx.note_case(('model_memo', str(g), tuple(wants), tuple(sched), locked), nontrivial=len(sched) > 3)
-    ctx.extra['model_memo_unlocked_created_twice'] = twice
-    ctx.count('model_memo', len(cases))
-
-
-def props_cross_check(ctx):
-    """(a) the REAL SensorCache._get_props driven by one thread for a history of sensor names on a map with wildcard
-    entries vs the extracted machine run serially: same key order of the map afterwards, every pattern entry that
-    matches is merged; (b) extracted machine under random schedules: locked -> no crash and all pattern keys seen,
-    unlocked -> crashes exist (counted)."""
-    if not ctx.model_ok or ctx.searching:
-        return
-    rng = ctx.rng
-    crashes = 0
-    for _ in range(ctx.scale(60, 800)):
-        # keys: ints; patterns 100+j stand for '*sfx_j' (match names whose number % 3 == j), plain keys = sensor names
-        nkeys = rng.randint(0, 5)
-        keys = []
-        for _ in range(nkeys):
-            k = rng.choice([100, 101, 102, rng.randrange(20)])
-            if k not in keys:
-                keys.append(k)
-        nt = rng.randint(1, 4)
-        names = [rng.randrange(20) for _ in range(nt)]
-
-        def real_key(k):
-            return '*_s%d' % (k - 100) if k >= 100 else 'n%d_s%d' % (k, k % 3)
-        prop_map = {real_key(k): ({'p%d' % k: k} if k >= 100 else {}) for k in keys}
-        order = list(range(nt))
-        rng.shuffle(order)
-        merged = {}
-        for t in order:
-            merged[t] = dict(SensorCache._get_props(real_key(names[t]), prop_map))
-        serial = [t for t in order for _ in range(40)]
-        sched = [rng.randrange(nt) for _ in range(rng.choice((5, 30, 80)))]
-        out = ctx.model([[206, [keys, names, serial, 1]], [206, [keys, names, sched, 1]], [206, [keys, names, sched, 0]]])
-        if [-999] in out:
-            continue
-        (st_serial, keys_serial), (st_l, keys_l), (st_u, keys_u) = out
-        case = dict(kind='model_props', keys=keys, names=names, order=order, schedule=sched)
-        if [real_key(k) for k in keys_serial] != list(prop_map):
-            ctx.disagree('what=model_props;symptom=key_order', case, list(prop_map), keys_serial,
-                         'keys of the property map after a history of _get_props calls: real dict vs model', kind='tie')
-        for t in order:
-            st = st_serial[t]
-            pats = [k for k in (st[1] if st[0] == 2 else []) if k >= 100 and (names[t] % 3) == k - 100]
-            want = {}
-            for k in pats:
-                want['p%d' % k] = k
-            if st[0] != 2 or want != merged[t]:
-                ctx.disagree('what=model_props;symptom=merged_entries', case, merged[t], st,
-                             'properties merged by the real _get_props vs the pattern entries the model iterates over', kind='tie')
-        if any(st[0] == 4 for st in st_l) or any(st[0] == 2 and [k for k in st[1] if k >= 100] != [k for k in keys if k >= 100]
-                                                  for st in st_l):
-            ctx.disagree('what=model_props;symptom=locked_unsafe', case, None, st_l,
-                         'extracted property-map machine contradicts the theorem', kind='tie')
-        crashes += any(st[0] == 4 for st in st_u)
-        ctx.traces_validated += 1
-        ctx.note_case(('model_props', tuple(keys), tuple(names), tuple(sched)), nontrivial=nt > 1)
-        ctx.count('model_props')
-    ctx.extra['model_props_unlocked_crashes'] = crashes
-
-
-def verify_cross_check(ctx):
-    """extracted verified-bucket machine (never locked) on random server states / buckets / schedules: every finished
-    thread has the single-thread outcome, only good buckets are remembered"""
-    if not ctx.model_ok or ctx.searching:
-        return
-    rng = ctx.rng
-    cases = []
-    for _ in range(ctx.scale(150, 2500)):
-        nb = rng.randint(1, 4)
-        sts = [rng.choice((0, 1, 2, 2, 5)) for _ in range(nb)]
-        nt = rng.randint(1, 5)
-        bs = [rng.randrange(nb) for _ in range(nt)]
-        sched = [rng.randrange(nt) for _ in range(rng.choice((0, 4, 12, 40, 90)))]
-        cases.append((sts, bs, sched))
-    outs = ctx.model([[207, list(c)] for c in cases])
-    dup = 0
-    for (sts, bs, sched), o in zip(cases, outs):
-        if o == [-999]:
-            continue
-        states, remembered, spec, code_ok = o
-        bad = None
-        if not code_ok:
-            bad = 'code_not_ok'
-        for t, st in enumerate(states):
-            if st[0] == 4 or (st[0] == 2 and st[1] != spec[t]) or spec[t] != (2 if sts[bs[t]] in (0, 1) else 1):
-                bad = 'outcome'
-        if any(sts[b] in (0, 1) for b in remembered):
-            bad = 'bad_bucket_remembered'
-        dup += len(remembered) != len(set(remembered))
-        if bad:
-            ctx.disagree('what=model_verify;symptom=%s' % bad, dict(kind='model_verify', statuses=sts, buckets=bs, schedule=sched),
-                         None, o, 'extracted verified-bucket machine contradicts the theorem', kind='tie')
-        ctx.note_case(('model_verify', tuple(sts), tuple(bs), tuple(sched)), nontrivial=len(sched) > 4)
-    ctx.extra['model_verify_listed_twice'] = dup
-    ctx.count('model_verify', len(cases))
-
-
-def request_cross_check(ctx):
-    """request-level pool: random interleavings of the event lists the model builds for random requests (wire_209,
-    flags as translated) replayed in the model pool (wire_208): nothing raises, no clash, nothing used unheld, sessions
-    accounted for; plus arbitrary (non-conforming) event soups."""
-    if not ctx.model_ok or ctx.searching:
-        return
-    rng = ctx.rng
-    for _ in range(ctx.scale(80, 1500)):
-        nt = rng.randint(1, 4)
-        reqs = []
-        for t in range(nt):
-            for _ in range(rng.randint(1, 3)):
-                outs = [0] * rng.choice((0, 0, 1, 2)) + [rng.choice((1, 1, 2))]
-                if rng.random() < 0.1:
-                    outs = [0] * rng.randint(0, 3)       # the retries run out
-                reqs.append((t, outs))
-        evs = ctx.model([[209, [t, outs]] for t, outs in reqs])
-        if [-999] in evs:
-            continue
-        per = {}
-        for (t, _), e in zip(reqs, evs):
-            per.setdefault(t, []).extend(e)
-        merged = []
-        pos = {t: 0 for t in per}
-        while any(pos[t] < len(per[t]) for t in per):
-            t = rng.choice([t for t in per if pos[t] < len(per[t])])
-            merged.append(per[t][pos[t]])
-            pos[t] += 1
-        soup = [[rng.randrange(5), rng.randrange(nt)] for _ in range(rng.randint(0, 25))]
-        (free, held, lost, clash, unheld, raised, made), (f2, h2, l2, c2, u2, r2, m2) = ctx.model([[208, merged], [208, soup]])
-        fails = sum(1 for _, outs in reqs if not outs or outs[-1] != 1)
-        case = dict(kind='model_request', requests=[[t, o] for t, o in reqs], events=merged)
-        if clash or unheld or raised or held or made != len(free) + lost or lost != fails or len(set(free)) != len(free):
-            ctx.disagree('what=model_request;symptom=conforming', case, None, [free, held, lost, clash, unheld, raised, made],
-                         'model pool under an interleaving of request programs contradicts the theorem', kind='tie')
-        if c2 or r2 or m2 != len(f2) + len(h2) + l2 or len(set(f2 + h2)) != len(f2 + h2):
-            ctx.disagree('what=model_request;symptom=soup', dict(kind='model_request', events=soup), None,
-                         [f2, h2, l2, c2, u2, r2, m2], 'model pool under an arbitrary event list contradicts the theorem', kind='tie')
-        ctx.note_case(('model_request', str(reqs), str(merged)), nontrivial=nt > 1)
-        ctx.count('model_request')
-
-
-# ------------------------------------------------------------------------------------------------ real sites (extension)
-
-class LoggingILock(ILock):
-    """an instrumented re-entrant lock that records which thread took it from the outside (depth 0 -> 1), in order"""
-
-    def __init__(self, sched, log):
-        ILock.__init__(self, sched, reentrant=True)
-        self.log = log
-
-    def acquire(self, blocking=True, timeout=-1):
-        r = ILock.acquire(self, blocking, timeout)
-        if self.count == 1:
-            self.log.append(self.s.current)
-        return r
-
-
-class CountingGetter(SimpleSensorGetter):
-    def __init__(self, name, ts, val, log):
-        SimpleSensorGetter.__init__(self, name, ts, val)
-        self._log = log
-
-    def get(self):
-        self._log.append(self.name)
-        return SimpleSensorGetter.get(self)
-
-
-def site_sensor_dag(ctx, dag_seed):
-    """A SensorCache whose virtual sensors form a random DAG (each creating function follows the katdal skeleton:
-    fetch the inputs with cache.get, compute, cache[name] = ..., return it), three threads asking twice each for random
-    names (one name nothing creates).  Every result must be the single-thread value; the run is replayed serially, in
-    the order in which the threads took the cache lock, in the extracted machine (wire_205): same creator-independent
-    facts -- which names end up cached, how often each was created."""
-    rng = random.Random(dag_seed)
-    n = rng.randint(4, 8)
-    g, virt = random_dag(rng, n)
-    for k in range(n):
-        if g[k][0]:
-            virt[k] = True
-    names = ['n%d' % k for k in range(n)] + ['n%d' % n]
-    vals = dag_values(g)
-    wants = [[rng.randrange(n + 1) for _ in range(2)] for _ in range(3)]
-    ts = np.arange(8.0)
-
-    def make(s):
-        created, order = [], []
-        raw, virtual = {}, {}
-
-        def mk_virtual(k):
-            deps, fid = g[k]
-
-            def create(cache, name):
-                got = [cache.get(names[d]) for d in deps]
-                out = np.full(8, float(zmix(fid, [int(v[0]) for v in got])))
-                created.append(name)
-                cache[name] = out
-                return out
-            return create
-        for k in range(n):
-            if virt[k]:
-                virtual[names[k]] = mk_virtual(k)
-            else:
-                v = float(zmix(g[k][1], []))
-                raw[names[k]] = CountingGetter(names[k], np.array([0.0, 7.0]), np.array([v, v]), created)
-        cache = SensorCache(raw, ts, 1.0, virtual=virtual)
-        cache._lock = LoggingILock(s, order)
-
-        def reader(t):
-            def f():
-                out = []
-                for w in wants[t]:
-                    try:
-                        out.append(float(cache.get(names[w])[3]))
-                    except KeyError:
-                        out.append('KeyError')
-                return out
-            return f
-
-        def check(results):
-            for t in range(3):
-                exp = [float(vals[w]) if w < n else 'KeyError' for w in wants[t]]
-                if results[t][1] != exp:
-                    return 'wrong_value; thread %d got %r instead of %r' % (t, results[t][1], exp)
-            counts = [created.count(names[k]) for k in range(n)]
-            if max(counts) > 1:
-                return 'created_%d_times; %s' % (max(counts), names[counts.index(max(counts))])
-            for k in range(n):
-                e = cache._raw.get(names[k])
-                if isinstance(e, np.ndarray) and not np.array_equal(e, np.full(8, float(vals[k]))):
-                    return 'cache_holds_wrong_value; %s' % names[k]
-            if ctx.model_ok and not ctx.searching and len(order) == 6:
-                seen = {0: 0, 1: 0, 2: 0}
-                mwants, serial = [], []
-                for t in order:
-                    mwants.append(wants[t][seen[t]])
-                    seen[t] += 1
-                    serial += [len(mwants) - 1] * 120
-                o = ctx.model([[205, [g, [int(v) for v in virt], mwants, serial, 1]]])[0]
-                if o != [-999]:
-                    states, mcache, mcounts, seqv, hist = o
-                    cached = [int(isinstance(cache._raw.get(names[k]), np.ndarray)) for k in range(n)]
-                    if mcounts != counts or [int(bool(c)) for c in mcache] != cached or any(st[0] not in (2, 3) for st in states):
-                        return 'model_differs; created %r cached %r, model created %r cached %r' % (
-                            counts, cached, mcounts, [int(bool(c)) for c in mcache])
-            return None
-        return [reader(0), reader(1), reader(2)], check
-    return make
-
-
-_concat_ref = {}
-
-
-def site_concat(kind):
-    """ConcatenatedSensorCache over two SensorCaches (wildcard property map with time offsets): first extraction of
-    different / the same sensors, a sensor that exists in one of the caches only (dummy data is put back), a virtual
-    sensor, selection through cc[name]."""
-    ts = np.arange(8.0)
-
-    def build(s=None):
-        made = []
-
-        def virt(cache, name, **kw):
-            base = cache.get('a')
-            out = base * 2
-            made.append(name)
-            cache[name] = out
-            return out
-
-        def mk(off, with_c):
-            raw = {'a': SimpleSensorGetter('a', np.array([0.0, 7.0]) + off, np.array([10.0, 17.0]) + off),
-                   'b': SimpleSensorGetter('b', np.array([0.0, 7.0]) + off, np.array([0.0, 70.0])),
-                   'x/pos': SimpleSensorGetter('x/pos', np.array([0.5, 7.5]) + off, np.array([5.0, 12.0])),
-                   'y/pos': SimpleSensorGetter('y/pos', np.array([0.5, 7.5]) + off, np.array([50.0, 120.0]))}
-            if with_c:
-                raw['c'] = SimpleSensorGetter('c', np.array([0.0, 7.0]) + off, np.array([1.0, 8.0]))
-            keep = np.array([1, 0, 1, 1, 0, 0, 1, 1], bool)
-            return SensorCache(raw, ts + off, 1.0, keep=keep, props={'*/pos': {'time_offset': -0.5}, '*': {}},
-                               virtual={'double/a': virt})
-        c1, c2 = mk(0.0, True), mk(8.0, False)
-        cc = ConcatenatedSensorCache([c1, c2], keep=np.array([1, 0, 1, 1, 0, 0, 1, 1] * 2, bool))
-        if s is not None:
-            for c in (c1, c2, cc):
-                if hasattr(c, '_lock'):
-                    c._lock = ilock_like(s, c._lock)
-        if kind == 'diff':
-            fs = [lambda: cc.get('x/pos'), lambda: cc.get('y/pos'), lambda: cc.get('b')]
-        elif kind == 'same':
-            fs = [lambda: cc.get('a'), lambda: cc.get('a'), lambda: cc.get('b')]
-        elif kind == 'missing':
-            fs = [lambda: cc.get('c'), lambda: cc.get('c'), lambda: cc.get('a')]
-        elif kind == 'virtual':
-            fs = [lambda: cc.get('double/a'), lambda: cc.get('a'), lambda: cc.get('double/a')]
-        else:
-            fs = [lambda: cc['a'], lambda: cc.get('b', select=True), lambda: ('a' in cc, cc['x/pos'])[1]]
-        return fs, cc, (c1, c2), made
-
-    def make(s):
-        if kind not in _concat_ref:
-            fs, _, _, _ = build()
-            _concat_ref[kind] = [np.asarray(f()) for f in fs]
-        exp = _concat_ref[kind]
-        fs, cc, subs, made = build(s)
-
-        def check(results):
-            for tid, e in enumerate(exp):
-                got = np.asarray(results[tid][1])
-                if got.shape != e.shape or not np.array_equal(got, e, equal_nan=True):
-                    return 'wrong_value; thread %d' % tid
-            if len(made) > 2:
-                return 'virtual_created_%d_times' % len(made)
-            return None
-        return fs, check
-    return make
-
-
-_v4p = {}
-V4P_FILES = ['katdal/sensordata.py', 'katdal/dataset.py', 'katdal/visdatav4.py', 'katdal/categorical.py']
-
-
-def v4p_env(seed):
-    if 'x' not in _v4p:
-        rs = np.random.RandomState(seed)
-        t0 = 1600000000.0 + 123.0
-        extra = []
-        for a in ('m000', 'm001'):
-            for sfx, lo in (('azim', 10.0), ('elev', 30.0)):
-                extra.append(('%s_pos_actual_scan_%s' % (a, sfx),
-                              [(t0 - 20.0 + 2.0 * i, lo + 0.3 * i + float(rs.uniform(0, 0.1))) for i in range(20)]))
-        for nm, lo in (('anc_air_temperature', 20.0), ('anc_air_pressure', 900.0), ('anc_air_relative_humidity', 40.0),
-                       ('anc_mean_wind_speed', 3.0), ('anc_wind_direction', 100.0)):
-            extra.append((nm, [(t0 - 20.0 + 5.0 * i, lo + float(rs.uniform(0, 1))) for i in range(10)]))
-        _v4p['x'] = guarded(lambda: v4.build_v4(T=6, F=4, seed=seed, extra_sensors=extra), 150)
-        d = _v4p['x'].d
-        _v4p['exp'] = guarded(lambda: [f() for f in v4p_readers(d)])
-    return _v4p['x'], _v4p['exp']
-
-
-def v4p_readers(d):
-    def pack(*arrs):
-        return [np.asarray(a).tolist() for a in arrs]
-    return [lambda: pack(d.az, d.ra, d.temperature, d.timestamps),
-            lambda: pack(d.dec, d.parangle, d.pressure, d.wind_speed, d.mjd),
-            lambda: pack(d.el, d.lst, d.target_x, d.humidity, d.az)]
-
-
-def site_v4_props(seed):
-    """The sensor-backed properties of a freshly opened v4 data set read from three threads: az/el (virtual over raw
-    pointing sensors), ra/dec (one virtual function storing two names), parangle, target_x (virtual over virtual),
-    mjd/lst, the weather sensors through get_with_fallback, timestamps."""
-    def make(s):
-        x, exp = v4p_env(seed)
-        d = v4.reopen(x)
-        d.sensor._lock = ilock_like(s, d.sensor._lock)
-
-        def check(results):
-            for tid in range(3):
-                if results[tid][1] != exp[tid]:
-                    got = results[tid][1]
-                    k = [i for i, (a, b) in enumerate(zip(got, exp[tid])) if a != b] if isinstance(got, list) else '?'
-                    return 'wrong_value; thread %d item %s' % (tid, k)
-            return None
-        return v4p_readers(d), check
-    return make
-
-
-def v4p_cleanup():
-    if 'x' in _v4p:
-        v4.cleanup(_v4p.pop('x'))
-        _v4p.clear()
-
-
-_s3x = {}
-
-
-def s3x_env():
-    if 's' not in _s3x:
-        import logging
-        from fixtures.s3mini import MiniS3
-        from katdal.chunkstore import npy_header_and_body
-        logging.getLogger('urllib3').setLevel(logging.CRITICAL)
-        objects, chunks = {}, {}
-        for k in range(3):
-            a = (np.arange(12, dtype=np.int32).reshape(3, 4) + 100 * k)
-            hdr, body = npy_header_and_body(a)
-            objects['/bkt/arr/%05d_00000.npy' % (3 * k)] = hdr + body.tobytes()
-            chunks[k] = a
-        # chunk 3 of bkt is lost; buckets 'void' (listing without keys) and 'gone' (404) have no objects at all
-        _s3x['s'] = MiniS3(objects, buckets={'void': 'empty', 'gone': 'missing'},
-                           trunc={'/bkt/arr/00000_00000.npy': 1, '/bkt/arr/00003_00000.npy': 2})
-        _s3x['chunks'] = chunks
-    return _s3x['s'], _s3x['chunks']
-
-
-S3X_PLANS = {
-    # per thread: (bucket, chunk number); expected: the chunk, or the exception a single thread gets
-    'retry': [[('bkt', 0), ('bkt', 1)], [('bkt', 1), ('bkt', 0)], [('bkt', 2), ('bkt', 1)]],
-    'lost': [[('bkt', 3), ('bkt', 0)], [('bkt', 3), ('bkt', 3)], [('bkt', 2), ('bkt', 3)]],
-    'void': [[('void', 0), ('bkt', 2)], [('void', 1), ('void', 0)], [('bkt', 3), ('void', 2)]],
-    'gone': [[('gone', 0), ('gone', 0)], [('gone', 1), ('bkt', 3)], [('bkt', 1), ('gone', 2)]],
-}
-S3X_STATUS = {'bkt': 2, 'void': 1, 'gone': 0}
-
-
-def site_s3x(ctx, plan_name):
-    """S3ChunkStore.get_chunk from three threads against a local endpoint with truncated responses (read retries with a
-    back-off sleep while the session stays borrowed), lost chunks (404 -> the bucket is checked through the UNLOCKED
-    _verified_buckets set), an empty and a missing bucket.  Every thread must get what a single thread gets (the chunk,
-    ChunkNotFound or StoreUnavailable); no session may be in two hands; the events (borrow / send / sleep / give back /
-    lose) of every request must be the request program of the model (wire_209) and the whole history, replayed in the
-    model pool (wire_208), must account for every session; the verified set must hold good buckets only and the
-    outcomes must be those of the extracted machine (wire_207)."""
-    from katdal.chunkstore_s3 import S3ChunkStore
-    from katdal.chunkstore import ChunkNotFound, StoreUnavailable
-    from urllib3.util.retry import Retry
-    plan = S3X_PLANS[plan_name]
-
-    def make(s):
-        srv, chunks = s3x_env()
-        srv.reset_faults()
-        store = S3ChunkStore(srv.url, timeout=(2, 5), retries=Retry(connect=0, read=3, status=0, backoff_factor=0.0005))
-        pool = store._session_pool
-        pool._lock = ilock_like(s, pool._lock)
-        events = []          # (kind, thread): 0 get 1 use 2 sleep 3 put 4 drop
-        inuse, clashes, made, borrowed = {}, [], [], {}
-        inner_factory, inner_get, inner_put = pool._factory, pool.get, pool.put
-
-        def factory():
-            session = inner_factory()
-            made.append(session)
-            sid = len(made)
-            orig = session.request
-
-            def request(*a, **k):
-                me = s.current
-                events.append((1, me))
-                if inuse.get(sid) is not None and inuse[sid] != me:
-                    clashes.append((sid, inuse[sid], me))
-                if borrowed.get(me) is not session:
-                    clashes.append((sid, 'not_the_borrowed_session', me))
-                inuse[sid] = me
-                try:
-                    resp = orig(*a, **k)
-                except BaseException:
-                    inuse[sid] = None
-                    raise
-                close = resp.close
-
-                def closing():
-                    if inuse.get(sid) == me:
-                        inuse[sid] = None
-                    close()
-                resp.close = closing
-                return resp
-            session.request = request
-            return session
-
-        def get():
-            item = inner_get()
-            events.append((0, s.current))
-            borrowed[s.current] = item
-            return item
-
-        def put(item):
-            events.append((3, s.current))
-            if borrowed.get(s.current) is item:
-                borrowed[s.current] = None
-            inner_put(item)
-        pool._factory, pool.get, pool.put = factory, get, put
-        inner_request = store.request
-
-        def request(*a, **k):
-            try:
-                return inner_request(*a, **k)
-            finally:
-                if borrowed.get(s.current) is not None:      # the request left its `with` block by an exception
-                    events.append((4, s.current))
-                    borrowed[s.current] = None
-        store.request = request
-        real_sleep = Retry.sleep
-
-        def sleep(self, response=None):
-            events.append((2, s.current))
-            return real_sleep(self, response)
-
-        def getter(t):
-            def f():
-                out = []
-                Retry.sleep = sleep
-                for b, k in plan[t]:
-                    try:
-                        out.append(store.get_chunk('%s/arr' % b, (slice(3 * k, 3 * k + 3), slice(0, 4)), np.int32).tolist())
-                    except (ChunkNotFound, StoreUnavailable) as e:
-                        out.append('StoreUnavailable' if isinstance(e, StoreUnavailable) else 'ChunkNotFound')
-                return out
-            return f
-
-        def expected(b, k):
-            if b == 'bkt' and k in chunks:
-                return chunks[k].tolist()
-            return 'ChunkNotFound' if S3X_STATUS[b] == 2 else 'StoreUnavailable'
-
-        def check(results):
-            Retry.sleep = real_sleep
-            for t in range(3):
-                want = [expected(b, k) for b, k in plan[t]]
-                if results[t][1] != want:
-                    got = [r if isinstance(r, str) else 'chunk' for r in results[t][1]]
-                    return 'wrong_value; thread %d got %r' % (t, got)
-            if clashes:
-                return 'session_used_by_two_requests; %r' % (clashes[0],)
-            good = {srv.url + '/bkt'}
-            if not set(store._verified_buckets) <= good:
-                return 'bad_bucket_remembered; %r' % sorted(store._verified_buckets)
-            lost = sum(1 for k, _ in events if k == 4)
-            if len(pool._pool) + lost != len(made) or len({id(x) for x in pool._pool}) != len(pool._pool):
-                return 'sessions_not_accounted_for; pool=%d lost=%d made=%d' % (len(pool._pool), lost, len(made))
-            if ctx.model_ok and not ctx.searching:
-                free, held, mlost, clash, unheld, raised, mmade = ctx.model([[208, [[k, t] for k, t in events]]])[0]
-                if clash or unheld or raised or held or mlost != lost or mmade != len(made) or len(free) != len(pool._pool):
-                    return 'model_pool_differs; model free=%d lost=%d made=%d clash=%d unheld=%d' % (
-                        len(free), mlost, mmade, clash, unheld)
-                # every request of every thread is a request program of the model
-                for t in range(3):
-                    mine = [k for k, th in events if th == t]
-                    reqs, cur = [], []
-                    for k in mine:
-                        cur.append(k)
-                        if k in (3, 4):
-                            reqs.append(cur)
-                            cur = []
-                    if cur:
-                        return 'model_request_differs; thread %d has an unfinished request %r' % (t, cur)
-                    for r in reqs:
-                        outs = []
-                        for i, k in enumerate(r):
-                            if k == 1:
-                                nxt = r[i + 1] if i + 1 < len(r) else None
-                                outs.append(0 if nxt == 2 else 1 if nxt == 3 else 2)
-                        prog = [e[0] for e in ctx.model([[209, [t, outs]]])[0]]
-                        if prog != r:
-                            return 'model_request_differs; thread %d events %r model %r' % (t, r, prog)
-                # the verified-bucket machine: same outcomes for the checks that were made
-                ids = {'gone': 0, 'void': 1, 'bkt': 2}
-                checks = [(t, b) for t in range(3) for (b, k) in plan[t] if expected(b, k) != (chunks.get(k).tolist() if b == 'bkt' and k in chunks else None)]
-                bs = [ids[b] for _, b in checks]
-                serial = [i for i in range(len(bs)) for _ in range(8)]
-                states, remembered, spec, code_ok = ctx.model([[207, [[0, 1, 2], bs, serial]]])[0]
-                mout = ['ChunkNotFound' if st[1] == 1 else 'StoreUnavailable' for st in states]
-                rout = [expected(b, 0 if b != 'bkt' else 3) for _, b in checks]
-                if mout != rout or (2 in remembered) != bool(store._verified_buckets) or not code_ok:
-                    return 'model_verify_differs; model %r real %r' % (mout, rout)
-            return None
-        return [getter(0), getter(1), getter(2)], check
-    return make
-
-
 def ext_site_table(ctx):
     t = {}
     for i in range(ctx.scale(3, 12)):
@@ -2763,7 +1852,7 @@ def replay_load(ctx, case, kind):
         try:
             try:
                 with dask.config.set(scheduler='synchronous'):
-                    ref = guarded(lambda: do_load(x.d, INDICES[case['index']], case['joint']))
+                    ref = guarded(lambda: do_load(x.d, index_of(case['index'], x.d), case['joint']))
             except Hang as e:
                 ctx.disagree('what=single_thread_load;symptom=hangs', case, str(e), None,
                              'the single-threaded load of a v4 data set does not return')
